@@ -54,8 +54,12 @@ def gen_cases(ctx):
                         base['library_warnings_are_errors'] = True
                     if rng.random() < 0.25:
                         base['unprintable_elements'] = True
+                    if not base.get('unprintable_elements') and rng.random() < 0.25:
+                        base['element_kind'] = rng.choice(['twins', 'range'])
                     if rng.random() < 0.3:
                         base['closable_source'] = True
+                    if kind == 'src' and rng.random() < 0.4:
+                        base['source_exception'] = 'picky'        # the source's exception class cannot be re-created from its args
                     if kind == 'src' and rng.random() < 0.5:
                         base['resume'] = rng.choice([1, 2, 4])      # a source that could go on after its exception (csv-reader like)
                     cases.append(base)
@@ -78,6 +82,16 @@ def gen_cases(ctx):
             first = next((c for c in cases if lab_ok(c)), None)
             if first is not None:
                 cases.append(dict(first, unprintable_elements=True))
+    # … and a failure for an element that EQUALS its predecessor in the window without being the same (-2 and -2.0): the earlier twin's
+    # result says nothing about the later one
+    tw = lambda c: (c['kind'] == 'e' and c['k'] % 2 == 1 and c['cfg']['nworkers'] > 0 and c['cfg']['nworkers'] + c['cfg']['extracache'] >= 2
+                    and c['table'][c['k'] - 1][0] in ('u', 'z', 'n'))
+    if not any(tw(c) and c.get('element_kind') == 'twins' for c in cases):
+        first = next((c for c in cases if tw(c)), None)
+        if first is not None:
+            first = dict(first, element_kind='twins')
+            first.pop('unprintable_elements', None)
+            cases.append(first)
     # corpus: the defect input of the pinned tree (DESIGN §3, D1)
     cases.insert(0, dict(cfg=dict(nworkers=2, extracache=2, skipNone=True, maxtasksperchild=None), n=6, tail=7,
                          table=[['u']] * 6, fkind='module', kwargs={}, schedule=None, demand=['N*', 'A'],
@@ -89,6 +103,7 @@ def judge(ctx, case, res, mout):
     c01.judge(ctx, case, res, mout_fix(case, res, mout))
     small = dict(cfg=case['cfg'], n=case['n'], table=case['table'], tail=case.get('tail'), schedule=case.get('schedule'),
                  fkind=case['fkind'], demand=case['demand'], label=case['label'], kwargs={})
+    pipelib.carry_flags(small, case)
     af = res.get('after_final', [])
     if any(a != 'stop' for a in af):
         ctx.fail('not-finished-after-failure', 'next() after the end of the stream gave %s' % af, small)
